@@ -584,7 +584,7 @@ func newSink(path, mode string) *Sink {
 	f, err := os.Create(path)
 	if err != nil {
 		fmt.Fprintln(os.Stderr, "cannot create output:", err)
-		os.Exit(2)
+		os.Exit(3)
 	}
 	return &Sink{w: bufio.NewWriter(f), stats: Stats{Mode: mode, Labels: map[string]int{}}, seen: map[string]int{}}
 }
@@ -779,15 +779,6 @@ func replayScenario(sink *Sink, sc *Scenario, work string, seed uint64) {
 	} else {
 		soff = headEnd(after.Data[tailName])
 	}
-	rv := &realView{Total: len(wr.Hist)}
-	durableOps := nops - 1
-	if len(sc.Lost) == 0 && (sc.AsIs || crashAfterReturn(sc)) {
-		durableOps = nops // the image is the directory after the last call returned
-	}
-	rv.Dur = specDurable(wr, durableOps)
-	if !sc.NoPred && int64(sc.Soff)*8 != soff && len(sc.Lost) > 0 {
-		sink.finding(Finding{ID: sc.ID, Class: "divergence", Kind: "synced-offset", Detail: fmt.Sprintf("model synced offset %d bytes, real %d", sc.Soff*8, soff), Sig: "synced-offset"})
-	}
 	if sc.LostSeed != 0 {
 		_, e, _, _ := parseFile(data[tailName], 0)
 		if e > soff {
@@ -795,12 +786,23 @@ func replayScenario(sink *Sink, sc *Scenario, work string, seed uint64) {
 		}
 		sc.LostSeed = 0
 	}
+	rv := &realView{Total: len(wr.Hist)}
+	durableOps := nops - 1
+	if len(sc.Lost) == 0 {
+		// nothing lost: the image is exactly the directory as it was when the last call returned, and a
+		// crash right after the return is a legal crash point - the call's durability obligation applies
+		durableOps = nops
+	}
+	rv.Dur = specDurable(wr, durableOps)
+	if !sc.NoPred && int64(sc.Soff)*8 != soff && len(sc.Lost) > 0 {
+		sink.finding(Finding{ID: sc.ID, Class: "divergence", Kind: "synced-offset", Detail: fmt.Sprintf("model synced offset %d bytes, real %d", sc.Soff*8, soff), Sig: "synced-offset"})
+	}
 	for _, s := range sc.Lost {
 		sectorZero(data[tailName], s, soff, nil)
 	}
 	if err := writeImage(img, names, data); err != nil {
 		fmt.Fprintln(os.Stderr, "infra:", err)
-		os.Exit(2)
+		os.Exit(3)
 	}
 
 	// read-only readers first (they do not modify the image)
@@ -889,7 +891,7 @@ func replayScenario(sink *Sink, sc *Scenario, work string, seed uint64) {
 	post, err := readDir(img)
 	if err != nil {
 		fmt.Fprintln(os.Stderr, "infra:", err)
-		os.Exit(2)
+		os.Exit(3)
 	}
 	postLog, _, ends, _ := parseSet(post.Names, post.Data)
 	hist2 := append([]Logical(nil), postLog...)
@@ -924,7 +926,7 @@ func replayScenario(sink *Sink, sc *Scenario, work string, seed uint64) {
 	after2, err := readDir(img)
 	if err != nil {
 		fmt.Fprintln(os.Stderr, "infra:", err)
-		os.Exit(2)
+		os.Exit(3)
 	}
 	func() { defer func() { recover() }(); w2.Close() }()
 	w2 = nil
@@ -946,7 +948,7 @@ func replayScenario(sink *Sink, sc *Scenario, work string, seed uint64) {
 	img2 := filepath.Join(work, "img2")
 	if err := writeImage(img2, names2, data2); err != nil {
 		fmt.Fprintln(os.Stderr, "infra:", err)
-		os.Exit(2)
+		os.Exit(3)
 	}
 	rcb, w3 := recoverDir(img2)
 	sink.stats.Reads++
@@ -1088,7 +1090,7 @@ func main() {
 	debug.SetGCPercent(200)
 	if len(os.Args) < 2 {
 		fmt.Fprintln(os.Stderr, "usage: walsim replay|random|corrupt|snap ...")
-		os.Exit(2)
+		os.Exit(3)
 	}
 	cmd := os.Args[1]
 	fs := flag.NewFlagSet(cmd, flag.ExitOnError)
@@ -1104,7 +1106,7 @@ func main() {
 	fs.Parse(os.Args[2:])
 	if *work == "" || *out == "" {
 		fmt.Fprintln(os.Stderr, "-work and -out are required")
-		os.Exit(2)
+		os.Exit(3)
 	}
 	os.MkdirAll(*work, 0700)
 	sink := newSink(*out, cmd)
@@ -1113,7 +1115,7 @@ func main() {
 		f, err := os.Open(*in)
 		if err != nil {
 			fmt.Fprintln(os.Stderr, err)
-			os.Exit(2)
+			os.Exit(3)
 		}
 		rd := bufio.NewReaderSize(f, 1<<20)
 		i := 0
@@ -1124,7 +1126,7 @@ func main() {
 					var sc Scenario
 					if jerr := json.Unmarshal(line, &sc); jerr != nil {
 						fmt.Fprintln(os.Stderr, "bad scenario line:", jerr)
-						os.Exit(2)
+						os.Exit(3)
 					}
 					if sc.ID == "" {
 						sc.ID = fmt.Sprintf("s%d", i)
@@ -1146,9 +1148,11 @@ func main() {
 		runCorrupt(sink, *work, *seed, *shard, *nshard, *n, *full, *trace, *in)
 	case "snap":
 		runSnap(sink, *work, *seed, *shard, *nshard, *n, *trace)
+	case "snapreplay":
+		runSnapReplay(sink, *work, *seed, *in)
 	default:
 		fmt.Fprintln(os.Stderr, "unknown command", cmd)
-		os.Exit(2)
+		os.Exit(3)
 	}
 	sink.close()
 	os.RemoveAll(*work)
